@@ -156,6 +156,10 @@ func resultValue(c *ssa.Call, i int) func(ssa.Value) bool {
 // returnsNonNilError reports whether the Return's error operand (index i) is definitely non-nil
 // (anything but the nil constant; a phi/param is treated as "possibly nil" = false).
 func returnErrIsNil(r *ssa.Return, i int) (isNil, known bool) {
+	return returnErrIsNilD(r, i, 0)
+}
+
+func returnErrIsNilD(r *ssa.Return, i int, retDepth int) (isNil, known bool) {
 	if i < 0 || i >= len(r.Results) {
 		return false, false
 	}
@@ -175,6 +179,18 @@ func returnErrIsNil(r *ssa.Return, i int) (isNil, known bool) {
 		if o := calleeObj(x.Common()); o != nil && o.Pkg() != nil {
 			switch o.Pkg().Path() + "." + objName(o) {
 			case "errors.New", "fmt.Errorf", "errors.Join":
+				return false, true
+			}
+		}
+		// a helper that only ever returns freshly made errors (`return clientIPError(addr)`)
+		if g := x.Common().StaticCallee(); g != nil && g.Blocks != nil && g != r.Parent() && g.Signature.Results().Len() == 1 && retDepth < 2 {
+			all := len(Returns(g)) > 0
+			for _, gr := range Returns(g) {
+				if isNil, known := returnErrIsNilD(gr, 0, retDepth+1); !known || isNil {
+					all = false
+				}
+			}
+			if all {
 				return false, true
 			}
 		}
